@@ -5,7 +5,7 @@
    specification, for every tree, every weighted voter set and all vote sets (no bound). *)
 From Coq Require Import List NArith Permutation.
 From Grandpa Require Import Tree Votes RoundSpec RoundProofs.
-From C20 Require Import Model.
+From C20 Require Import Model Proofs ProofsPossible.
 Import ListNotations.
 Local Open Scope N_scope.
 
@@ -115,6 +115,77 @@ Theorem C20_estimate_antimonotone : forall t ws V C C' e e',
   estimate t ws V C = Some e -> estimate t ws V C' = Some e' -> anc t e' e.
 Proof. exact estimate_antimono. Qed.
 Print Assumptions C20_estimate_antimonotone.
+
+(* ---- "possible to have a supermajority" against the paper's existential definition:
+   whenever SOME tolerant extension of C (further votes, further equivocations within the
+   tolerance) has a supermajority for b, the accounting says "possible" -- for all weights.
+   (The converse holds for unit weights, C20_possible_iff_extension_unit below; with weights the
+   accounting of Round.update, like the Rust original, lets fractions of a voter's weight
+   equivocate; see C20_possible_paper for the exact counting form.) *)
+Theorem C20_possible_of_extension : forall t ws C C' b,
+  (forall x, In x C -> In x C') -> tolerant ws C' = true -> has_supermajority t ws C' b = true ->
+  possible t ws C b = true.
+Proof. exact possible_of_extension. Qed.
+Print Assumptions C20_possible_of_extension.
+
+(* With UNIT weights (every voter weighs 1: the Polkadot/Kusama case and lib/grandpa) the
+   accounting IS the paper's definition: for a tolerant C it is possible for C to have a
+   supermajority for b iff some tolerant extension of C has a supermajority for b. *)
+Theorem C20_possible_iff_extension_unit : forall t n C b,
+  tolerant (repeat 1 n) C = true ->
+  (possible t (repeat 1 n) C b = true <->
+   exists C', (forall x, In x C -> In x C') /\ tolerant (repeat 1 n) C' = true /\
+              has_supermajority t (repeat 1 n) C' b = true).
+Proof.
+  intros t n C b TOL. split.
+  - exact (possible_extension_unit t n C b TOL).
+  - intros [C' [I [T S]]]. exact (possible_of_extension t (repeat 1 n) C C' b I T S).
+Qed.
+Print Assumptions C20_possible_iff_extension_unit.
+
+(* non-vacuity (4 unit voters, fork 0-1, 0-2): after precommits 0:1, 1:1 block 2 is still possible
+   (voters 2, 3 vote for it and one of 0, 1 equivocates), after a third precommit for block 1 it
+   is not *)
+Example C20_possible_unit_example :
+  let C := [mkVote 0 1 0; mkVote 1 1 0]%nat in
+  tolerant (repeat 1 4) C = true /\ possible [0;0]%nat (repeat 1 4) C 2%nat = true /\
+  tolerant (repeat 1 4) (mkVote 2%nat 1%nat 0%nat :: C) = true /\
+  possible [0;0]%nat (repeat 1 4) (mkVote 2%nat 1%nat 0%nat :: C) 2%nat = false.
+Proof. vm_compute. repeat split; reflexivity. Qed.
+
+(* ---- the part of Round.update the correspondence check replays outside the domain
+   (C20.Model.round_state_go: possibleToPrecommit with Go's wrapping uint64 subtraction) IS the
+   specification whenever the precommits are tolerant and the total weight fits 64 bits: the wrap
+   is unobservable inside the domain of the paper definitions *)
+Theorem C20_update_model_is_spec : forall t ws V C,
+  total ws < 0x10000000000000000 -> tolerant ws C = true ->
+  round_state_go t ws V C = round_state_of t ws V C.
+Proof. intros t ws V C FIT TOL. exact (round_state_go_spec t ws FIT V C TOL). Qed.
+Print Assumptions C20_update_model_is_spec.
+
+(* outside the domain it is not: 3 unit voters (threshold 3, tolerance 0), voters 0 and 1 precommit
+   both block 1 and its sibling 2, voter 2 precommits block 2: the unsigned subtraction
+   tolerated - current equivocations wraps and block 1 stays "possible"; the truncated subtraction
+   of the specification (which is what the Rust original computes) says it is impossible *)
+Example C20_wrap_differs_outside_domain :
+  let C := [mkVote 0 2 0; mkVote 0 1 0; mkVote 1 2 0; mkVote 1 1 0; mkVote 2 2 0]%nat in
+  tolerant [1;1;1] C = false /\
+  possible_go [0;0]%nat [1;1;1] C 1%nat = true /\ possible [0;0]%nat [1;1;1] C 1%nat = false.
+Proof. vm_compute. repeat split; reflexivity. Qed.
+
+(* ---- the gate "estimate = ghost, not completable until the precommits seen reach the threshold"
+   is part of the specification (as of the reference implementation).  It is the paper's definition
+   when total = 3f+1 (C20_below_threshold_all_possible); for other totals it is a convention: with 3
+   unit voters (threshold 3, tolerance 0), prevotes for block 1 and two precommits for its sibling
+   2, block 1 can no longer get a supermajority, but the estimate stays the ghost 1 until the third
+   precommit is seen *)
+Example C20_gate_is_a_convention_when_not_3f1 :
+  let V := [mkVote 0 1 0; mkVote 1 1 0; mkVote 2 1 0]%nat in
+  let C := [mkVote 0 2 0; mkVote 1 2 0]%nat in
+  total [1;1;1] <> 3 * tolerance [1;1;1] + 1 /\
+  estimate [0;0]%nat [1;1;1] V C = Some 1%nat /\ possible [0;0]%nat [1;1;1] C 1%nat = false /\
+  estimate [0;0]%nat [1;1;1] V (mkVote 2%nat 2%nat 0%nat :: C) = Some 0%nat.
+Proof. vm_compute. repeat split; try reflexivity. discriminate. Qed.
 
 (* ---- non-vacuity: TestRound_Finalisation of the package, rebased on block C.
    tree: 0=C 1=D 2=E 3=F 4=EA 5=EB 6=EC 7=ED 8=FA 9=FB 10=FC ; Alice 4, Bob 7, Eve 3 *)
